@@ -17,11 +17,17 @@
 (* Go TYPE (table TA = the harness's pool), name and qualifier string are  *)
 (* attributes of the instance.  Provider 1 is the holder.                  *)
 (*                                                                         *)
-(* FixF1/FixF2/FixF3 = TRUE model the repaired code; FALSE the pinned one. *)
+(* FixF1/FixF2/FixF3/FixF13 = TRUE model the repaired code; FALSE the      *)
+(* pinned one.                                                             *)
+(* sc.extra: the container's second, public by-type collector              *)
+(* (processors.NewDependencyTypeAwarePostProcessors) is registered next to *)
+(* the default one: every by-type wire point is then served twice, and the *)
+(* further-matching step keeps the first occurrence of each candidate      *)
+(* (fix F13; the pinned code injected every component twice into slices).  *)
 (***************************************************************************)
 EXTENDS Integers, Sequences, FiniteSets, TLC
 
-CONSTANTS Scenarios, FixF1, FixF2, FixF3
+CONSTANTS Scenarios, FixF1, FixF2, FixF3, FixF13
 
 H == 1        \* the holder
 NIL == 0      \* a nil *Meta in Property.Injects
@@ -93,7 +99,9 @@ Init == \E s \in Scenarios : InitWith(s)
 \* what the collectors may put into Property.Injects for a point (order = registry iteration order)
 CollectChoices(pt) ==
   IF pt.tag = "func" THEN Perms(CompatSet(pt))
-  ELSE IF pt.byName = 0 THEN (IF pt.kind = "any" THEN {<<>>} ELSE Perms(CompatSet(pt)))
+  ELSE IF pt.byName = 0 THEN (IF pt.kind = "any" THEN {<<>>}
+                               ELSE IF sc.extra THEN {p \o p : p \in Perms(CompatSet(pt))}     \* both collectors, same registry order
+                               ELSE Perms(CompatSet(pt)))
   ELSE IF IsSlice(pt) \/ IsArr(pt) THEN {<<>>}     \* a name on a slice / array point is ignored
   ELSE IF pt.byName = -1 THEN {<<NIL>>}             \* GetMetaByName finds nothing: a nil is recorded
   ELSE IF FixF2 /\ ~Compat(pt, pop[pt.byName]) THEN {<<NIL>>}
@@ -107,7 +115,8 @@ CollectWith(f) ==
 Collect == \E o \in Perms(Prov) :
              CollectWith([i \in 1..NP |->
                 LET pt == pts[i] IN
-                IF pt.tag = "func" \/ (pt.byName = 0 /\ pt.kind # "any") THEN InOrder(o, CompatSet(pt))
+                IF pt.tag = "func" THEN InOrder(o, CompatSet(pt))
+                ELSE IF pt.byName = 0 /\ pt.kind # "any" THEN (IF sc.extra THEN InOrder(o, CompatSet(pt)) \o InOrder(o, CompatSet(pt)) ELSE InOrder(o, CompatSet(pt)))
                 ELSE CHOOSE s \in CollectChoices(pt) : TRUE])
 
 \* ---------------------------------------------------------------- further matching (Order 4)
@@ -119,13 +128,18 @@ Prefer(s) ==      \* first Primary, else last component without a custom name, e
   ELSE IF unnamed # {} THEN s[CHOOSE i \in unnamed : \A j \in unnamed : i >= j]
   ELSE s[1]
 SelfOut(s) == SelectSeq(s, LAMBDA p : p # H)
+\* first occurrences only
+RECURSIVE Dedup(_)
+Dedup(s) == IF s = <<>> THEN <<>> ELSE LET r == Dedup(SubSeq(s, 1, Len(s) - 1)) IN
+                                     IF \E i \in 1..Len(r) : r[i] = s[Len(s)] THEN r ELSE Append(r, s[Len(s)])
 
 \* the loop of PostProcessProperties over the holder's properties, from index i with Injects = cur
 RECURSIVE FilterFrom(_, _)
 FilterFrom(i, cur) ==
   IF i > NP THEN [inj |-> cur, status |-> "run"]
   ELSE LET pt == pts[i]
-           s0 == SelectSeq(cur[i], LAMBDA p : p # NIL)
+           s00 == SelectSeq(cur[i], LAMBDA p : p # NIL)
+           s0 == IF FixF13 THEN Dedup(s00) ELSE s00
            s0b == IF FixF3 THEN SelfOut(s0) ELSE s0
            s1 == IF ~pt.hasQ THEN s0b ELSE SelectSeq(s0b, LAMBDA p : QualOK(pt, pop[p]))
            miss == s0 = <<>> \/ s0b = <<>> \/ s1 = <<>>
